@@ -1201,7 +1201,14 @@ func (r condition) string() string {
 	// begin default presentation
 	// handler ...
 	var raw string
-	if meth := getStringer(r.ex); meth != nil {
+	if xs, ok := stackTypeAliasConverter(r.ex); ok {
+		// Stack or Stack alias (which may lack
+		// a String method of its own)
+		raw = xs.String()
+	} else if xc, ok := conditionTypeAliasConverter(r.ex); ok {
+		// Condition or Condition alias
+		raw = xc.String()
+	} else if meth := getStringer(r.ex); meth != nil {
 		raw = meth()
 	} else {
 		raw = primitiveStringer(r.ex)
